@@ -303,6 +303,10 @@ func (u *Universe) applyLocked(r *Replica, upTo uint64) error {
 			if err := u.installSnapshotLocked(donor, r); err != nil {
 				return err
 			}
+			if r.applied < next {
+				// the donor itself is below its own compaction marker: nobody can serve this replica now
+				return ErrShardNotReady
+			}
 			continue
 		}
 		e := s.entries[next-1]
@@ -438,6 +442,7 @@ func (u *Universe) installSnapshotLocked(donor, r *Replica) error {
 		u.fatal(donor, "snapshot save failed", fmt.Sprint(err, pv))
 		return ErrShardNotReady
 	}
+	image := append([]byte(nil), buf.Bytes()...)
 	pv = guard(func() {
 		if r.disk != nil {
 			err = r.disk.RecoverFromSnapshot(&buf, r.stopc)
@@ -454,6 +459,11 @@ func (u *Universe) installSnapshotLocked(donor, r *Replica) error {
 	r.applied = at
 	if at > r.marker {
 		r.marker = at
+	}
+	if r.conc != nil {
+		// a received snapshot is persisted like one of the replica's own: an in-memory state machine
+		// restarts from it (its log below the marker is gone)
+		r.snap = &memSnapshot{index: at, data: image}
 	}
 	r.ccIndex = donor.ccIndex
 	r.sinceSnapshot = 0
